@@ -162,9 +162,12 @@ def plan(tier, seed):
     p = [("conservation", dict(skeleton="T1", n=3, sym_durations=["steps", "request"], dmax_h=2, rmax_h=3)),
          ("conservation", dict(skeleton="T4", n=2, sym_durations=["steps"], dmax_h=2)),
          ("conservation", dict(skeleton="T3", n=2, sym_durations=["request"], rmax_h=2)),
-         ("conservation", dict(skeleton="T2", n=2, sym_durations=["steps"], dmax_h=3))]
+         ("conservation", dict(skeleton="T2", n=2, sym_durations=["steps"], dmax_h=3)),
+         ("conservation", dict(skeleton="TX", n=2, sym_durations=[], dmax_h=2)),
+         ("conservation", dict(skeleton="TX", n=2, sym_durations=[], dmax_h=2, args={"shared": True}))]
     if tier == "thorough":
-        p += [("conservation", dict(skeleton="T1", n=4, sym_durations=["steps", "request"], dmax_h=3, rmax_h=3)),
+        p += [("conservation", dict(skeleton="TX", n=2, sym_durations=["request"], rmax_h=2, args={"shared": True})),
+              ("conservation", dict(skeleton="T1", n=4, sym_durations=["steps", "request"], dmax_h=3, rmax_h=3)),
               ("conservation", dict(skeleton="T4", n=3, sym_durations=["steps", "request"], dmax_h=2, rmax_h=2), dict(max_paths=6000, max_seconds=3000)),
               ("conservation", dict(skeleton="T3", n=3, sym_durations=["steps", "request"], dmax_h=2, rmax_h=2), dict(max_paths=6000, max_seconds=3000)),
               ("conservation", dict(skeleton="T7", n=3, sym_durations=["request"], rmax_h=3)),
